@@ -301,6 +301,9 @@ def gamma4(tier, seed):
         for t in (2, {"min": 1, "max": 2}, {"min": 0, "max": 1}):
             out.append({"id": f"g4/repeated/{an}/{t}", "doc": doc_of(["push", {"$not": [X], "times": t}, "call"]), "feature": "not_repeated"})
         out.append({"id": f"g4/in_or/{an}", "doc": doc_of(["push", {"$or": [N, "ret"]}, "call"]), "feature": "not_inner"})
+        # leading AND repeated: the anchoring lemmas SA/HX are about the first repetition
+        for t in (2, {"min": 1, "max": 2}):
+            out.append({"id": f"g4/leading_repeated/{an}/{t}", "doc": doc_of([{"$not": [X], "times": t}, "call"]), "feature": "not_leading_repeated"})
     out.append({"id": "g4/inner/fm", "doc": doc_of(["push", {"$not": ["mov"]}, "call"], True, True), "feature": "not_inner"})
     # operand level
     for pos, ops in (
@@ -343,6 +346,12 @@ def gamma7(tier, seed):
         out.append({"id": f"g7/lead/{nm}", "doc": doc_of([X, "call"]), "feature": "lead_" + nm, "lemmas": L})
         out.append({"id": f"g7/lead/{nm}/fm", "doc": doc_of([X, "call"], True, True), "feature": "lead_" + nm, "lemmas": L})
     out.append({"id": "g7/lead/not", "doc": doc_of([{"$not": ["mov"]}, "call"]), "feature": "not_leading", "lemmas": L})
+    out.append({"id": "g7/lead/not_times2", "doc": doc_of([{"$not": ["mov"], "times": 2}, "call"]), "feature": "not_leading_repeated", "lemmas": L})
+    out.append({"id": "g7/lead/not_times12", "doc": doc_of([{"$not": ["mov"], "times": {"min": 1, "max": 2}}]), "feature": "not_leading_repeated", "lemmas": L})
+    out.append({"id": "g7/lead/and_times", "doc": doc_of([{"$and": ["mov", "add"], "times": {"min": 1, "max": 2}}, "call"]), "feature": "lead_and", "lemmas": L})
+    out.append({"id": "g7/lead/anyorder_times", "doc": doc_of([{"$and_any_order": ["mov", "add"], "times": 2}, "call"]), "feature": "lead_anyorder", "lemmas": L})
+    out.append({"id": "g7/lead/capture_ins", "doc": doc_of(["&i", "call", "&i"]), "feature": "lead_capture", "lemmas": ("SA", "HX", "EA", "NE"), "capture_order": ["&i"], "env_dom": {"&i": ["mov,a,b", "ret,"]}})
+    out.append({"id": "g7/lead/capture_op", "doc": doc_of([{"mov": ["&x"]}, {"add": ["&x"]}]), "feature": "lead_capture", "lemmas": ("SA", "HX", "EA", "NE"), "capture_order": ["&x"], "env_dom": {"&x": ["a", "0x10"]}})
     # operand-count mismatch: fewer / equal / more operand names than the instruction has operands
     for k in range(0, 5):
         ops = ["a", "b", "c", "d"][:k]
@@ -405,7 +414,10 @@ def gamma5(tier, seed):
         out.append(t)
 
     # ---- operand captures: one name
-    T("op/define_only", [{"mov": ["&x"]}, "ret"], ["&x"], {"&x": D}, "cap_operand_define")
+    T("op/define_only", [{"mov": ["&x"]}, "ret"], ["&x"], {"&x": D + [""]}, "cap_operand_define")
+    # the empty text is never a binding (an operand-less instruction has one EMPTY operand field)
+    T("op/empty_binding", [{"push": ["&x"]}, {"pop": ["&x"]}], ["&x"], {"&x": ["", "a"]}, "cap_operand_define")
+    T("op/empty_binding_fm", [{"ret": ["&x"]}, "nop"], ["&x"], {"&x": ["", "0x8"]}, "cap_operand_define", doc=doc_of([{"ret": ["&x"]}, "nop"], True, False))
     T("op/define_second", [{"mov": ["a", "&x"]}, "ret"], ["&x"], {"&x": D}, "cap_operand_define")
     T("op/later_last", [{"mov": ["&x"]}, {"add": ["&x"]}], ["&x"], {"&x": D}, "cap_operand_later_last", lemmas=("AEM", "EA", "NE", "TWIN"), twin=[{"mov": ["&x"]}, {"add": ["zzz"]}])
     T("op/later_then_operand", [{"mov": ["&x"]}, {"add": ["&x", "b"]}, "ret"], ["&x"], {"&x": D}, "cap_operand_later_mid")
@@ -442,6 +454,10 @@ def gamma5(tier, seed):
                 T(f"reg/{fam}/{w1}->{w2}", [{"mov": [f"{nm}.{w1}"]}, {"add": [f"{nm}.{w2}"]}], [nm], {nm: keys}, "cap_register_later", domain="regs", lemmas=("AEM",))
         T(f"reg/{fam}/first_nosuffix", [{"mov": [nm]}, "ret"], [nm], {nm: keys}, "cap_register_first_nosuffix", domain="regs")
         T(f"reg/{fam}/as_in_tests", [{"add": [1, f"{nm}-1"]}, {"mov": [f"{nm}-1.16", f"{nm}-1.32"]}, "jmp"], [f"{nm}-1"], {f"{nm}-1": keys}, "cap_register_later_mid", domain="regs")
+    # two different register captures of one family are independent (names with '-n' and with an inner dot)
+    for n1, n2 in (("&genreg-1", "&genreg-2"), ("&genreg.src", "&genreg.dst"), ("&indreg.a", "&indreg.b")):
+        keys = list("abcd") if "genreg" in n1 else ["s", "d"]
+        T(f"reg/two_names/{n1}", [{"mov": [f"{n1}.64", f"{n2}.64"]}, {"push": [f"{n1}.32"]}, {"push": [f"{n2}.32"]}], [n1, n2], {n1: keys, n2: keys}, "cap_register_two_names", domain="regs", lemmas=("AEM",))
     # documented upper-case suffixes
     T("reg/genreg/upper_8H", [{"mov": ["&genreg.64"]}, {"add": ["&genreg.8H"]}], ["&genreg"], {"&genreg": list("abcd")}, "cap_register_upper_suffix", domain="regs", lemmas=("AEM",), pattern=[{"mov": ["&genreg.64"]}, {"add": ["&genreg.8h"]}])
     T("reg/genreg/upper_8L", [{"mov": ["&genreg.64"]}, {"add": ["&genreg.8L"]}], ["&genreg"], {"&genreg": list("abcd")}, "cap_register_upper_suffix", domain="regs", lemmas=("AEM",), pattern=[{"mov": ["&genreg.64"]}, {"add": ["&genreg.8l"]}])
